@@ -602,6 +602,54 @@ fn canon_chan_lines(lines: &[String]) -> Vec<String> {
 	out
 }
 
+
+// ---------------------------------------------------------------------------------------------------
+// (v-b) the writer's "forget the peer's uncommitted updates" table, differential against the model over the TRANSLATED table
+// (Generated/ChanForget.lean, tools/gen_chan_forget.py; Props/C12 written_state_is_forgotten_state / retransmission_restores):
+//   forget_disk <chan>  the channel as dumped BEFORE the write -> the channel dumped by the manager READ BACK from those bytes
+//   forget_mem <chan>   the channel before a real peer disconnection -> the channel after it (remove_uncommitted_htlcs_and_mark_paused)
+//   forget_retx <chan>  after reload + reconnect: did the re-read channel accept what the peer retransmitted (`ok`) or close
+//                       with "Remote skipped HTLC ID" / a fee-update protocol error (`refused`)
+// <chan> = <outbound 0|1> <next_holder_htlc_id> <next_counterparty_htlc_id> <fee rate:State|-> <holding-cell fee|-> <in id:State,…|->
+//          <out id:State,…|-> <holding-cell entries>.  Nothing here is normalised by the harness: both sides start from the raw dump.
+// ---------------------------------------------------------------------------------------------------
+/// channel id -> (<chan> text, holds a peer-uncommitted update?, role/fee-state consistent?)
+fn forget_texts(lines: &[String]) -> BTreeMap<String, (String, bool, bool)> {
+	let mut out = BTreeMap::new();
+	for l in lines.iter().filter(|l| line_kind(l) == "chan") {
+		let id = l.split(' ').nth(1).unwrap_or("").to_string();
+		let tok = |key: &str| -> String { l.split(' ').find(|t| t.starts_with(key)).map(|t| t[key.len()..].to_string()).unwrap_or_default() };
+		let between = |a: &str, b: &str| -> String { l.find(a).and_then(|p| l[p + a.len()..].find(b).map(|q| l[p + a.len()..p + a.len() + q].to_string())).unwrap_or_default() };
+		let outbound = tok("outbound=") == "true";
+		let fee_raw = between("pending_update_fee=", " holding_cell_update_fee=");
+		let (fee, fee_state) = if fee_raw.starts_with("Some((") { let inner = fee_raw.trim_start_matches("Some((").trim_end_matches("))"); let mut it = inner.split(','); let r = it.next().unwrap_or("").trim().to_string(); let st = it.next().unwrap_or("").trim().to_string(); (format!("{}:{}", r, st), st) } else { ("-".to_string(), String::new()) };
+		let hfee_raw = tok("holding_cell_update_fee=");
+		let hfee = if hfee_raw.starts_with("Some(") { hfee_raw.trim_start_matches("Some(").trim_end_matches(')').to_string() } else { "-".to_string() };
+		let states = |kind: &str| -> Vec<String> { lines.iter().filter(|m| line_kind(m) == kind && m.split(' ').nth(1) == Some(&id[..])).map(|m| { let hid = m.split(' ').find_map(|t| t.strip_prefix("htlc_id=")).unwrap_or("0"); let st = m.split(' ').find_map(|t| t.strip_prefix("state=")).unwrap_or("?"); format!("{}:{}", hid, st.split(':').next().unwrap_or("?")) }).collect() };
+		let (i, o) = (states("chan_in"), states("chan_out"));
+		let hold = lines.iter().filter(|m| line_kind(m) == "chan_hold" && m.split(' ').nth(1) == Some(&id[..])).count();
+		let interesting = i.iter().any(|x| x.ends_with(":RemoteAnnounced")) || o.iter().any(|x| x.ends_with(":RemoteRemoved")) || fee_state == "RemoteAnnounced";
+		let fee_wf = fee_state.is_empty() || (outbound == (fee_state == "Outbound"));
+		let j = |v: &Vec<String>| if v.is_empty() { "-".to_string() } else { v.join(",") };
+		out.insert(id, (format!("{} {} {} {} {} {} {} {}", if outbound { 1 } else { 0 }, tok("next_holder_htlc_id="), tok("next_counterparty_htlc_id="), fee, hfee, j(&i), j(&o), hold), interesting, fee_wf));
+	}
+	out
+}
+/// one differential case per channel (each distinct op line once per run) + the role / fee-state invariant the theorems assume
+fn emit_forget(ctx: &mut Ctx, kind: &str, before: &[String], after: &[String], at: &str) {
+	let (b, a) = (forget_texts(before), forget_texts(after));
+	for (id, (text, interesting, fee_wf)) in b.iter() {
+		if !*fee_wf { ctx.fail_once("forget:fee-wf", format!("{}: channel {} has a pending_update_fee whose state contradicts its role (a funder holds only Outbound fee updates, a fundee never does): {}", at, id, text)); }
+		let op = format!("{} {}", kind, text);
+		if !ctx.once.insert(format!("op:{}", op)) { continue; }
+		if let Some((res, _, _)) = a.get(id) {
+			ctx.rec.case(&op, res, if *interesting { "forget:peer-uncommitted-update-present" } else { "forget:nothing-to-forget" }, *interesting);
+			ctx.bump(&format!("{}:{}", kind, if *interesting { "with-uncommitted" } else { "plain" }));
+			if text.split(' ').nth(3).map(|f| f.ends_with(":RemoteAnnounced")).unwrap_or(false) { ctx.bump(&format!("{}:fundee-fee-RemoteAnnounced", kind)); }
+		}
+	}
+}
+
 /// differences not explained by a reload; `added` collects the kinds of what the reload added / resolved (statistics)
 fn deep_diff(before: &[String], after: &[String], added: &mut Vec<String>) -> Vec<String> { deep_diff_ex(before, after, added, false) }
 
@@ -721,6 +769,7 @@ fn shadow_check(net: &Net, i: usize, st: &mut St, ctx: &mut Ctx, op: &str) {
 		Ok(after) => {
 			st.n_shadow += 1;
 			let mut added = vec![];
+			emit_forget(ctx, "forget_disk", &before, &after, &format!("after {}: node {}", op, i));
 			let d = deep_diff(&before, &after, &mut added);
 			for a in added { ctx.bump(&format!("deep:{}", a)); }
 			if !d.is_empty() { ctx.fail_once(&format!("shadow:{}", class_key(&d[0])), format!("after {}: ChannelManager of node {} written and read back differs in its persisted payment state: {}", op, i, d.iter().take(3).map(|s| s.chars().take(420).collect::<String>()).collect::<Vec<_>>().join(" || "))); }
@@ -962,6 +1011,10 @@ enum Act {
 	Disconnect(usize, usize), Reconnect(usize, usize),
 	/// ONE timer tick at the node (gossip enable / disable staging counts single ticks)
 	Tick1(usize),
+	/// the node's fee estimator rises by a quarter and a timer tick makes the funder of its channels send update_fee + commitment_signed
+	FeeBump(usize),
+	/// does nothing: a cut point of interest for this node (the quick tier cuts at the nodes the neighbouring acts concern)
+	Nop(usize),
 }
 fn auto(v: &mut Vec<Act>, n: usize) { for _ in 0..n { v.push(Act::Micro); } }
 
@@ -1025,6 +1078,21 @@ fn rare_scripts(rng: &mut Rng) -> Vec<Script> {
 		a.push(Act::Mode(1, true)); a.push(Act::Intercept { delta: skim }); a.push(Act::Intercept { delta: 0 }); auto(&mut a, 8); a.push(Act::Complete(1)); auto(&mut a, 24);
 		a.push(Act::Mode(2, true)); a.push(Act::Claim); auto(&mut a, 6); a.push(Act::Complete(2)); auto(&mut a, 6); a.push(Act::Complete(1)); a.push(Act::Complete(2)); a.push(Act::Mode(1, false)); a.push(Act::Mode(2, false)); auto(&mut a, 40);
 		out.push(Script { cut_ticks: 0, name: format!("async-persist-mpp2-underpaid amt={} skim={}", amt, skim), acts: a });
+	}
+	// fee update in flight: the funder (node 0 of channel 0, node 1 of channel 1) raises the feerate; update_fee and commitment_signed
+	// are delivered one by one, with a cut at the FUNDEE after each step: its pending_update_fee is RemoteAnnounced (not written:
+	// the funder retransmits it), then AwaitingRemoteRevokeToAnnounce (written).  Second round with an HTLC travelling at the same
+	// time (RemoteAnnounced inbound HTLC + RemoteAnnounced fee update in one write).
+	{
+		let mut a = vec![Act::FeeBump(0)];
+		for _ in 0..8 { a.push(Act::Micro); a.push(Act::Nop(1)); a.push(Act::Nop(0)); }
+		a.push(Act::PayDirect { from: 0, to: 1, chan: 0, amt: 30_000 + rng.below(10_000) }); a.push(Act::FeeBump(0));
+		for _ in 0..14 { a.push(Act::Micro); a.push(Act::Nop(1)); }
+		a.push(Act::Claim);
+		a.push(Act::FeeBump(1));
+		for _ in 0..14 { a.push(Act::Micro); a.push(Act::Nop(2)); a.push(Act::Nop(1)); }
+		auto(&mut a, 20);
+		out.push(Script { cut_ticks: 0, name: "fee-update in flight".into(), acts: a });
 	}
 	// gossip enable / disable staging: the peer of an announced channel goes away for more than DISABLE_GOSSIP_TICKS (10)
 	// ticks (Enabled -> DisabledStaged(n) -> Disabled, a disabling channel_update is broadcast), comes back, and after
@@ -1141,6 +1209,8 @@ impl Rare {
 			Act::Disconnect(a, b) => { if self.net.connected.contains(&(*a, *b)) { self.net.disconnect(*a, *b); true } else { false } },
 			Act::Reconnect(a, b) => { if !self.net.connected.contains(&(*a, *b)) { self.net.reconnect(*a, *b); true } else { false } },
 			Act::Tick1(i) => { self.net.nodes[*i].node.timer_tick_occurred(); self.net.pump(*i); true },
+			Act::FeeBump(i) => { { let mut f = self.net.nodes[*i].fee_estimator.sat_per_kw.lock().unwrap(); *f += *f / 4 + 20; } self.net.nodes[*i].node.timer_tick_occurred(); self.net.pump(*i); true },
+			Act::Nop(_) => true,
 		}
 	}
 	fn drain(&mut self) { for _ in 0..400 { match self.net.any_queued() { Some((i, j)) => { self.net.deliver(i, j); }, None => break } } }
@@ -1158,6 +1228,9 @@ fn run_script(sc: &Script, cut: Option<(usize, usize, bool)>, ctx: &mut Ctx, add
 	for (k, act) in sc.acts.iter().enumerate() {
 		if let Some((ck, x, reload)) = cut { if ck == k {
 			let was_connected: Vec<usize> = r.peers_of(x).into_iter().filter(|j| r.net.connected.contains(&(x, *j))).collect();
+			let mut retx_before: Option<Vec<String>> = None;
+			let errs_at_cut = r.net.trace.iter().filter(|o| matches!(o, Obs::ProtoError { .. })).count();
+			let closed_at_cut = r.net.closed.len();
 			if reload {
 				let deep_before = vh::manager_persisted_state_dump(r.net.nodes[x].node);
 				for l in &deep_before { if line_kind(l) == "claimable" && claimable_partial(l) { states.insert("written:claimable:partially-received-mpp".into()); } }
@@ -1176,16 +1249,26 @@ fn run_script(sc: &Script, cut: Option<(usize, usize, bool)>, ctx: &mut Ctx, add
 					Ok(()) => {
 						check_configs_survive(&mut r.net, x, &cfgs, ctx, &format!("scenario `{}`, reload before act #{}", sc.name, k));
 						let deep_after = vh::manager_persisted_state_dump(r.net.nodes[x].node);
+						emit_forget(ctx, "forget_disk", &deep_before, &deep_after, &format!("scenario `{}`, node {} written and reloaded before act #{}", sc.name, x, k));
+						retx_before = Some(deep_before.clone());
 						let d = deep_diff_ex(&deep_before, &deep_after, added, true);
 						if !d.is_empty() && problem.is_none() { problem = Some(format!("persisted payment state of node {} differs after write+reload: {}", x, d.iter().take(3).map(|s| s.chars().take(420).collect::<String>()).collect::<Vec<_>>().join(" || "))); }
 					},
 				}
 			} else {
 				complete_all(&mut r.net, x); r.net.set_mode(x, false);
+				let mem_before = vh::manager_persisted_state_dump(r.net.nodes[x].node);
+				let all_connected = r.peers_of(x).iter().all(|j| r.net.connected.contains(&(x, *j)));
 				for j in r.peers_of(x) { if r.net.connected.contains(&(x, j)) { r.net.disconnect(x, j); } }
+				if all_connected { let mem_after = vh::manager_persisted_state_dump(r.net.nodes[x].node); emit_forget(ctx, "forget_mem", &mem_before, &mem_after, &format!("scenario `{}`, node {} disconnected before act #{}", sc.name, x, k)); }
 			}
+			let was_connected_n = was_connected.len();
 			for j in was_connected { if !r.net.connected.contains(&(x, j)) { r.net.reconnect(x, j); } }
 			r.drain();
+			if let Some(b) = retx_before.take() { if was_connected_n == r.peers_of(x).len() {
+				let refused = r.net.trace.iter().filter(|o| matches!(o, Obs::ProtoError { .. })).skip(errs_at_cut).any(|o| { let t = format!("{:?}", o); t.contains("Remote skipped HTLC ID") || t.contains("tried to update channel fee") }) || r.net.closed.len() > closed_at_cut;
+				for (_, (text, interesting, _)) in forget_texts(&b).iter() { let op = format!("forget_retx {}", text); if ctx.once.insert(format!("op:{}", op)) { ctx.rec.case(&op, if refused { "refused" } else { "ok" }, if *interesting { "forget:retransmission-after-reload" } else { "forget:nothing-to-retransmit" }, *interesting); ctx.bump(&format!("forget_retx:{}", if *interesting { "with-uncommitted" } else { "plain" })); } }
+			} }
 			for _ in 0..sc.cut_ticks { r.net.nodes[x].node.timer_tick_occurred(); r.net.pump(x); }
 		} }
 		effective.push(r.apply(act));
@@ -1193,7 +1276,6 @@ fn run_script(sc: &Script, cut: Option<(usize, usize, bool)>, ctx: &mut Ctx, add
 	// settle
 	for i in 0..3 { complete_all(&mut r.net, i); r.net.set_mode(i, false); }
 	r.net.settle(30);
-	let _ = ctx;
 	let events = (0..3).map(|i| r.net.events[i].iter().map(ev_summary).collect()).collect();
 	// the announced state of every (node, channel): the sequence of disabled flags of its broadcast channel_updates,
 	// consecutive repetitions collapsed (a reload may re-broadcast the current state)
@@ -1242,7 +1324,7 @@ fn rare_states(seed: u64, st: &mut St, ctx: &mut Ctx) {
 		}
 		for &k in &cuts {
 			// quick tier: one node per cut point (rotating), every third cut point for the long tails; thorough: all three nodes
-			let concerned = |a: &Act| -> Vec<usize> { match a { Act::Pay { .. } => vec![0], Act::PayDirect { from, .. } => vec![*from], Act::Intercept { .. } | Act::FailIntercept => vec![1], Act::Ticks(i) | Act::Mode(i, _) | Act::Complete(i) => vec![*i], Act::Claim | Act::FailBack => vec![2], Act::Blocks(_) => vec![2], Act::Disconnect(a, _) | Act::Reconnect(a, _) => vec![*a], Act::Tick1(i) => vec![*i], Act::Micro => vec![] } };
+			let concerned = |a: &Act| -> Vec<usize> { match a { Act::Pay { .. } => vec![0], Act::PayDirect { from, .. } => vec![*from], Act::Intercept { .. } | Act::FailIntercept => vec![1], Act::Ticks(i) | Act::Mode(i, _) | Act::Complete(i) => vec![*i], Act::Claim | Act::FailBack => vec![2], Act::Blocks(_) => vec![2], Act::Disconnect(a, _) | Act::Reconnect(a, _) => vec![*a], Act::Tick1(i) => vec![*i], Act::FeeBump(i) => vec![*i], Act::Nop(i) => vec![*i], Act::Micro => vec![] } };
 			let mut nodes: Vec<usize> = if ctx.thorough { vec![0, 1, 2] } else { let mut v = concerned(&sc.acts[k]); if k > 0 { v.extend(concerned(&sc.acts[k - 1])); } v };
 			if nodes.is_empty() { nodes.push([2usize, 1, 2, 0][(k + rng.below(4) as usize) % 4]); }
 			nodes.sort(); nodes.dedup();
@@ -1410,6 +1492,11 @@ fn main() {
 
 	// ---- (vii) length / integer primitives + boundary-size collections ---------------------------------------------
 	if std::env::var("C12_ONLY").is_err() { ser_prims(&mut st, &mut ctx); }
+	if std::env::var("C12_ONLY").is_err() {
+		let (fails, stats) = sweeper_rt::run(args.seed, if args.thorough { 400 } else { 40 });
+		for f in fails.into_iter().take(3) { ctx.fail(f); }
+		for (k, v) in stats { *ctx.stats.entry(k).or_insert(0) += v; }
+	}
 
 	// ---- (iv) malformed streams + op lines -----------------------------------------------------------
 	let (n_frame, n_corrupt) = if args.thorough { (40, 60) } else { (14, 12) };
@@ -1528,4 +1615,171 @@ fn main() {
 	rec.notes.insert("not_covered".into(), "OutputSweeper (needs an async KVStore + wallet set-up; its TLV blocks are in the generated schema list only); ChannelManager malformed-stream mutations (each needs a full node reload); the behavioural comparison original vs reloaded manager covers the scripted rare-state scenarios (payment events and end state), not the random schedules (there the reloaded node continues under the engine's own oracles); reloads always hand over the LATEST monitors (stale-monitor restarts are C10's subject), so in-flight updates / blocked completion actions / pending claims are written but resolved by the read; retry_strategy / attempts of a Retryable payment and timer_ticks of a claimable HTLC are declared non-persistent and masked".into());
 	rec.notes.insert("rare_states".into(), "scripts: {underpaid, overforwarded} x {claim, fail, blocks}, mpp2-underpaid-claim, mpp2-partial-timeout, mpp2-one-part-failed, holding-cell, async-persist-claim, async-persist-mpp2-underpaid, gossip-status (disable / enable staging, 12 extra ticks at the cut node in both runs because the staged tick counters are documented as not persisted); cut points = every effective act / micro-step (quick: all within two steps of a non-micro act + every third other one, the node(s) the neighbouring acts concern; thorough: all, every node); states written are listed in states_reached as rare:written:*".into());
 	rec.finish();
+}
+
+// ---------------------------------------------------------------------------------------------------
+// (viii) OutputSweeper round trip (util/sweep.rs; census row "OutputSweeper … NOT COVERED at run time"): a real
+// `OutputSweeperSync` is driven through track / sweep / block connect / reorg; after EVERY op the bytes it persisted to its
+// KVStore are read back into a second sweeper (fresh store / broadcaster), which must report the same best block and the
+// same tracked outputs (TrackedSpendableOutput: descriptor, channel id, counterparty, status — `==`), and the NEXT op is
+// applied to both: same state and the same transactions broadcast afterwards ("reacting to all subsequent … blocks like
+// the original").  Model-free implementation oracle.
+// ---------------------------------------------------------------------------------------------------
+mod sweeper_rt {
+	use bitcoin::absolute::LockTime;
+	use bitcoin::block::Header;
+	use bitcoin::hashes::Hash;
+	use bitcoin::secp256k1::{All, PublicKey, Secp256k1, SecretKey};
+	use bitcoin::transaction::Version;
+	use bitcoin::{Amount, BlockHash, ScriptBuf, Transaction, TxIn, TxOut, Txid};
+	use ldk_verif_harness::common::{guarded, Rng};
+	use lightning::chain::chaininterface::{BroadcasterInterface, ConfirmationTarget, FeeEstimator, TransactionType};
+	use lightning::chain::transaction::OutPoint;
+	use lightning::chain::{BlockLocator, Filter, Listen, WatchedOutput};
+	use lightning::ln::types::ChannelId;
+	use lightning::sign::{ChangeDestinationSourceSync, OutputSpender, SpendableOutputDescriptor};
+	use lightning::util::persist::{KVStoreSync, OUTPUT_SWEEPER_PERSISTENCE_KEY, OUTPUT_SWEEPER_PERSISTENCE_PRIMARY_NAMESPACE, OUTPUT_SWEEPER_PERSISTENCE_SECONDARY_NAMESPACE};
+	use lightning::util::ser::ReadableArgs;
+	use lightning::util::sweep::{OutputSpendStatus, OutputSweeperSync};
+	use lightning::util::test_utils::TestStore;
+	use std::collections::BTreeMap;
+	use std::panic::AssertUnwindSafe;
+	use std::sync::atomic::{AtomicU64, Ordering};
+	use std::sync::Mutex;
+
+	pub struct Bcast(Mutex<Vec<Transaction>>);
+	impl BroadcasterInterface for Bcast {
+		fn broadcast_transactions(&self, txs: &[(&Transaction, TransactionType)]) { for (tx, _) in txs { self.0.lock().unwrap().push((*tx).clone()); } }
+	}
+	pub struct Fee;
+	impl FeeEstimator for Fee { fn get_est_sat_per_1000_weight(&self, _: ConfirmationTarget) -> u32 { 253 } }
+	pub struct NoFilter;
+	impl Filter for NoFilter {
+		fn register_tx(&self, _: &Txid, _: &bitcoin::Script) {}
+		fn register_output(&self, _: WatchedOutput) {}
+	}
+	pub struct Change(AtomicU64);
+	impl ChangeDestinationSourceSync for Change {
+		fn get_change_destination_script(&self) -> Result<ScriptBuf, ()> { let n = self.0.fetch_add(1, Ordering::Relaxed); Ok(ScriptBuf::new_op_return(&n.to_be_bytes())) }
+	}
+	pub struct Spender;
+	impl OutputSpender for Spender {
+		fn spend_spendable_outputs(&self, descriptors: &[&SpendableOutputDescriptor], _: Vec<TxOut>, change: ScriptBuf, _: u32, locktime: Option<LockTime>, _: &Secp256k1<All>) -> Result<Transaction, ()> {
+			let mut value = Amount::ZERO;
+			let mut input = Vec::new();
+			for d in descriptors {
+				if let SpendableOutputDescriptor::StaticOutput { output, .. } = d { value += output.value; }
+				input.push(TxIn { previous_output: d.spendable_outpoint().into_bitcoin_outpoint(), ..Default::default() });
+			}
+			Ok(Transaction { version: Version::TWO, lock_time: locktime.unwrap_or(LockTime::ZERO), input, output: vec![TxOut { value: value - Amount::from_sat(500), script_pubkey: change }] })
+		}
+	}
+	type Sw = OutputSweeperSync<&'static Bcast, &'static Change, Fee, NoFilter, &'static TestStore, ldk_verif_harness::common::NullLogger, Spender>;
+	struct Side { sw: Sw, bc: &'static Bcast, change: &'static Change, store: &'static TestStore }
+	fn leak<T>(t: T) -> &'static T { Box::leak(Box::new(t)) }
+	fn state(sw: &Sw) -> String { format!("best={:?} outputs={:?}", sw.current_best_block(), sw.tracked_spendable_outputs()) }
+	fn header(prev: BlockHash, nonce: u32) -> Header {
+		Header { version: bitcoin::block::Version::NO_SOFT_FORK_SIGNALLING, prev_blockhash: prev, merkle_root: bitcoin::hash_types::TxMerkleNode::all_zeros(), time: nonce, bits: bitcoin::pow::CompactTarget::from_consensus(42), nonce }
+	}
+	fn reread(orig: &Side) -> Result<Side, String> {
+		let bytes = KVStoreSync::read(orig.store, OUTPUT_SWEEPER_PERSISTENCE_PRIMARY_NAMESPACE, OUTPUT_SWEEPER_PERSISTENCE_SECONDARY_NAMESPACE, OUTPUT_SWEEPER_PERSISTENCE_KEY).map_err(|e| format!("nothing persisted: {:?}", e))?;
+		let (bc, change, store) = (leak(Bcast(Mutex::new(vec![]))), leak(Change(AtomicU64::new(orig.change.0.load(Ordering::Relaxed)))), leak(TestStore::new(false)));
+		let mut s = &bytes[..];
+		match guarded(AssertUnwindSafe(|| <(BlockLocator, Sw)>::read(&mut s, (bc, Fee, None, Spender, change, store, ldk_verif_harness::common::NullLogger)))) {
+			Err(p) => Err(format!("OutputSweeper::read panics on the sweeper's own persisted bytes: {}", p.chars().take(200).collect::<String>())),
+			Ok(Err(e)) => Err(format!("OutputSweeper does not read back from its own persisted bytes: {:?}", e)),
+			Ok(Ok((best, sw))) => {
+				if best != sw.current_best_block() { return Err(format!("OutputSweeper::read returns best block {:?} but the sweeper read says {:?}", best, sw.current_best_block())); }
+				if !s.is_empty() { return Err(format!("OutputSweeper::read leaves {} bytes unread", s.len())); }
+				Ok(Side { sw, bc, change, store })
+			},
+		}
+	}
+	/// returns (failures, statistics)
+	pub fn run(seed: u64, scenarios: usize) -> (Vec<String>, BTreeMap<String, u64>) {
+		let (mut fails, mut stats): (Vec<String>, BTreeMap<String, u64>) = (vec![], BTreeMap::new());
+		let secp = Secp256k1::new();
+		for sc in 0..scenarios {
+			let mut rng = Rng::new(seed ^ 0x5eee9 ^ ((sc as u64) << 17));
+			let base_height = rng.range(1, 500) as u32;
+			let mut tip = (BlockHash::from_byte_array(rng.bytes32()), base_height);
+			let mut chain: Vec<(Header, u32, Vec<Transaction>)> = vec![];
+			let (bc, change, store) = (leak(Bcast(Mutex::new(vec![]))), leak(Change(AtomicU64::new((seed << 20) ^ sc as u64))), leak(TestStore::new(false)));
+			let orig = Side { sw: OutputSweeperSync::new(BlockLocator::new(tip.0, tip.1), bc, Fee, None, Spender, change, store, ldk_verif_harness::common::NullLogger), bc, change, store };
+			let mut shadow: Option<Side> = None;
+			let mut pool: Vec<Transaction> = vec![];
+			let mut hist: Vec<String> = vec![];
+			let (mut next_id, mut nonce) = (1u32, (sc as u32) << 12);
+			let n_ops = rng.range(12, 40);
+			'ops: for _ in 0..n_ops {
+				let r = rng.below(100);
+				let op: String;
+				let sides: Vec<&Side> = std::iter::once(&orig).chain(shadow.iter()).collect();
+				if r < 22 {
+					let id = next_id; next_id += 1;
+					let mut b = [0x5au8; 32]; b[..4].copy_from_slice(&id.to_be_bytes());
+					let keys_id = if rng.chance(1, 2) { Some(rng.bytes32()) } else { None };
+					let d = SpendableOutputDescriptor::StaticOutput { outpoint: OutPoint { txid: Txid::from_byte_array(b), index: (id % 3) as u16 }, output: TxOut { value: Amount::from_sat(100_000 + id as u64), script_pubkey: ScriptBuf::new_op_return(&id.to_be_bytes()) }, channel_keys_id: keys_id };
+					let cid = if rng.chance(2, 3) { Some(ChannelId(rng.bytes32())) } else { None };
+					let peer = if rng.chance(1, 2) { Some(PublicKey::from_secret_key(&secp, &SecretKey::from_slice(&[(id % 200 + 1) as u8; 32]).unwrap())) } else { None };
+					let delay = if rng.chance(3, 10) { Some(tip.1 + rng.below(4) as u32) } else { None };
+					op = format!("track {} chan={} peer={} keys_id={} delay={:?}", id, cid.is_some(), peer.is_some(), keys_id.is_some(), delay);
+					for s in &sides { let _ = s.sw.track_spendable_outputs(vec![d.clone()], cid, peer, false, delay); }
+				} else if r < 45 {
+					op = "sweep".into();
+					for s in &sides { let _ = s.sw.regenerate_and_broadcast_spend_if_necessary(); }
+				} else if r < 85 || chain.is_empty() {
+					let pct = *rng.pick(&[0u64, 50, 100, 100]);
+					let txs: Vec<Transaction> = pool.iter().filter(|_| rng.below(100) < pct).cloned().collect();
+					// a block never spends the same outpoint twice
+					let mut seen = std::collections::BTreeSet::new();
+					let txs: Vec<Transaction> = txs.into_iter().filter(|t| t.input.iter().all(|i| seen.insert(i.previous_output))).collect();
+					pool.retain(|t| !txs.contains(t));
+					nonce += 1;
+					let hd = header(tip.0, nonce);
+					let h = tip.1 + 1;
+					op = format!("connect {} with {} sweep txs", h, txs.len());
+					let txdata: Vec<(usize, &Transaction)> = txs.iter().enumerate().collect();
+					for s in &sides { s.sw.filtered_block_connected(&hd, &txdata, h); }
+					tip = (hd.block_hash(), h);
+					chain.push((hd, h, txs));
+				} else {
+					let k = 1 + rng.below(chain.len().min(3) as u64) as usize;
+					for _ in 0..k { if let Some((_, _, txs)) = chain.pop() { pool.extend(txs); } }
+					tip = chain.last().map(|(hd, h, _)| (hd.block_hash(), *h)).unwrap_or((orig.sw.current_best_block().block_hash, base_height));
+					if chain.is_empty() { break 'ops; }
+					op = format!("disconnect {} blocks, new tip {}", k, tip.1);
+					for s in &sides { s.sw.blocks_disconnected(BlockLocator::new(tip.0, tip.1)); }
+				}
+				hist.push(op.clone());
+				*stats.entry(format!("sweeper-op:{}", op.split(' ').next().unwrap_or(""))).or_insert(0) += 1;
+				let txo: Vec<Transaction> = orig.bc.0.lock().unwrap().drain(..).collect();
+				// behaviour of the copy read back before this op
+				if let Some(sh) = &shadow {
+					let txs: Vec<Transaction> = sh.bc.0.lock().unwrap().drain(..).collect();
+					if state(&sh.sw) != state(&orig.sw) || txs != txo {
+						fails.push(format!("OutputSweeper scenario {} (seed {}): after `{}` the sweeper that was read back from the persisted bytes before this op differs from the original: ORIGINAL {} broadcast {:?} | RE-READ {} broadcast {:?} | ops: {}", sc, seed, op, state(&orig.sw).chars().take(500).collect::<String>(), txo.iter().map(|t| t.compute_txid()).collect::<Vec<_>>(), state(&sh.sw).chars().take(500).collect::<String>(), txs.iter().map(|t| t.compute_txid()).collect::<Vec<_>>(), hist.join("; ")));
+						break 'ops;
+					}
+					*stats.entry("sweeper:op-applied-to-reread-copy-same-result".into()).or_insert(0) += 1;
+				}
+				for t in txo { if !pool.contains(&t) { pool.push(t); } }
+				// round trip of what is persisted now
+				match reread(&orig) {
+					Err(e) if e.starts_with("nothing persisted") => { *stats.entry("sweeper:nothing-persisted-yet".into()).or_insert(0) += 1; },
+					Err(e) => { fails.push(format!("OutputSweeper scenario {} (seed {}): after `{}`: {} | ops: {}", sc, seed, op, e, hist.join("; "))); break 'ops; },
+					Ok(sh) => {
+						if state(&sh.sw) != state(&orig.sw) {
+							fails.push(format!("OutputSweeper scenario {} (seed {}): after `{}` the persisted bytes read back to a different sweeper: WRITTEN {} | READ {} | ops: {}", sc, seed, op, state(&orig.sw).chars().take(600).collect::<String>(), state(&sh.sw).chars().take(600).collect::<String>(), hist.join("; ")));
+							break 'ops;
+						}
+						for o in sh.sw.tracked_spendable_outputs() { *stats.entry(format!("sweeper-written:{}", match o.status { OutputSpendStatus::PendingInitialBroadcast { delayed_until_height } => if delayed_until_height.is_some() { "PendingInitialBroadcast-delayed" } else { "PendingInitialBroadcast" }, OutputSpendStatus::PendingFirstConfirmation { .. } => "PendingFirstConfirmation", OutputSpendStatus::PendingThresholdConfirmations { .. } => "PendingThresholdConfirmations" })).or_insert(0) += 1; }
+						*stats.entry("sweeper:roundtrip-equal".into()).or_insert(0) += 1;
+						shadow = Some(sh);
+					},
+				}
+			}
+		}
+		(fails, stats)
+	}
 }
